@@ -361,6 +361,26 @@ pub enum CaseC04 {
     B(CaseB),
 }
 
+/// Engine B cases for C04 with fresh space left: requests that cannot fit (around u32::MAX, u32::MAX - allocated,
+/// capacity, remaining) issued by one thread while the others make small requests that do fit - a failing call must
+/// not disturb a concurrent one (no transient state of the failing call may be visible as a wrong cursor)
+fn case_b_c04(tier: Tier) -> BoxedStrategy<CaseB> {
+    let nt = crate::types::ntypes() as u8;
+    let pop = prop_oneof![
+        5 => (0u8..4, -20i8..=20).prop_map(|(sel, d)| POp::AllocHuge { sel, d }),
+        6 => (1u16..=24, 0u8..2).prop_map(|(n, payload)| POp::AllocBytes { n, payload }),
+        2 => (0..nt, 0u16..16, 0u8..2).prop_map(|(ty, n, payload)| POp::AllocAligned { ty, n, payload }),
+        2 => (0..nt, 0u8..2).prop_map(|(ty, payload)| POp::AllocTyped { ty, payload }),
+        2 => any::<u16>().prop_map(|h| POp::Drop { h }),
+    ];
+    let (maxops, maxthreads, schedlen) = if tier == Tier::Thorough { (8usize, 4usize, 120usize) } else { (5, 3, 48) };
+    let progs = prop::collection::vec(prop::collection::vec(pop, 1..=maxops), 2..=maxthreads);
+    let pre = prop::collection::vec((1u32..40).prop_map(|n| Op::AllocBytes { n: crate::case::Size::Abs(n), owned: false, via: 0 }), 1..=3);
+    (cfg_b(ALL_FL), pre, progs, schedule_strategy(schedlen), any::<bool>())
+        .prop_map(move |(cfg, pre, progs, schedule, spurious)| CaseB { cfg, pre, progs, schedule, mark_preempt: 0, spurious: spurious && tier == Tier::Thorough })
+        .boxed()
+}
+
 pub struct C04;
 impl Prop for C04 {
     type Case = CaseC04;
@@ -369,8 +389,9 @@ impl Prop for C04 {
     const SHRINK_ITERS: u32 = 1200;
     fn strategy(tier: Tier) -> BoxedStrategy<CaseC04> {
         prop_oneof![
-            7 => <C04A as Prop>::strategy(tier).prop_map(CaseC04::A),
+            14 => <C04A as Prop>::strategy(tier).prop_map(CaseC04::A),
             1 => case_b_strategy(tier, LIST_FL, false).prop_map(CaseC04::B),
+            1 => case_b_c04(tier).prop_map(CaseC04::B),
         ]
         .boxed()
     }
@@ -391,7 +412,7 @@ impl Prop for C04 {
         scale(tier, 320_000, 10_000_000)
     }
     fn rule() -> &'static str {
-        "7/8 of the cases: Engine A histories with boundary-dense huge sizes (u32::MAX-k, u32::MAX-allocated+-d, 2^31+-d, capacity+-d, remaining+-d, random u32) for bytes and extra, every type, on every reachable state, under an overflow-checked and an unchecked build (same seeds); oracle: no panic, no signal (worker processes supervised), Ok => in-arena range with capacity <= arena capacity + C01/C03 predicates, Err => InsufficientSpace/ReadOnly and allocated/discarded/remaining/free list unchanged. 1/8 of the cases: Engine B programs on a shared sync::Arena with an exhausted cursor (so allocations compete for segments and some fail): no panic in any thread, and a call that returns - in particular one that fails - must not leave a segment that it marked itself linked and marked (the failed call would have changed the free list). Non-trivial (A) = a request that exceeds remaining() or whose end would pass 2^32; (B) = some allocation failed in a run in which threads interfered (a CAS failed)"
+        "7/8 of the cases: Engine A histories with boundary-dense huge sizes (u32::MAX-k, u32::MAX-allocated+-d, 2^31+-d, capacity+-d, remaining+-d, random u32) for bytes and extra, every type, on every reachable state, under an overflow-checked and an unchecked build (same seeds); oracle: no panic, no signal (worker processes supervised), Ok => in-arena range with capacity <= arena capacity + C01/C03 predicates, Err => InsufficientSpace/ReadOnly and allocated/discarded/remaining/free list unchanged. 1/8 of the cases: Engine B programs on a shared sync::Arena, half of them with an exhausted cursor (so allocations compete for segments and some fail), half with fresh space left and requests that cannot fit (u32::MAX - k, u32::MAX - allocated + d, capacity + d, remaining + d) racing small requests that do: no panic in any thread; every range returned meanwhile lies in the data area and is disjoint from every live range (a failing call must not expose a transient cursor); a call that returns - in particular one that fails - must not leave a segment that it marked itself linked and marked (the failed call would have changed the free list). Non-trivial (A) = a request that exceeds remaining() or whose end would pass 2^32; (B) = some allocation failed in a run in which threads interfered (a CAS failed)"
     }
     fn assumptions() -> Vec<&'static str> {
         let mut v = <C04A as Prop>::assumptions();
@@ -402,6 +423,84 @@ impl Prop for C04 {
         match c {
             CaseC04::A(c) => simplify_case_a(c).into_iter().map(CaseC04::A).collect(),
             CaseC04::B(c) => simplify_b(c).into_iter().map(CaseC04::B).collect(),
+        }
+    }
+}
+
+// ------------------------------------------------------------------------------------------ C03
+// single-threaded histories (Engine A) plus the same capacity / alignment law at every allocation return of
+// threads that share one sync::Arena under a schedule (Engine B): the bump paths recompute padding and size
+// inside compare-exchange retry loops, and a value carried over from a stale cursor only shows when another
+// thread moves the cursor between the load and the compare-exchange
+
+#[derive(Clone, Debug, serde::Serialize, serde::Deserialize)]
+#[serde(untagged)]
+pub enum CaseC03 {
+    A(CaseA),
+    B(CaseB),
+}
+
+/// Engine B cases for C03: fresh space left (the bump paths must be reachable), many aligned / typed requests
+fn case_b_c03(tier: Tier) -> BoxedStrategy<CaseB> {
+    let nt = crate::types::ntypes() as u8;
+    let pop = prop_oneof![
+        5 => (0..nt, 0u16..24, 0u8..2).prop_map(|(ty, n, payload)| POp::AllocAligned { ty, n, payload }),
+        4 => (0..nt, 0u8..2).prop_map(|(ty, payload)| POp::AllocTyped { ty, payload }),
+        4 => (1u16..=17, 0u8..2).prop_map(|(n, payload)| POp::AllocBytes { n, payload }),
+        2 => any::<u16>().prop_map(|h| POp::Drop { h }),
+    ];
+    let (maxops, maxthreads, schedlen) = if tier == Tier::Thorough { (8usize, 4usize, 120usize) } else { (5, 3, 48) };
+    let progs = prop::collection::vec(prop::collection::vec(pop, 1..=maxops), 2..=maxthreads);
+    // a few small allocations first so that the cursor starts at an arbitrary residue
+    let pre = prop::collection::vec((1u32..24).prop_map(|n| Op::AllocBytes { n: crate::case::Size::Abs(n), owned: false, via: 0 }), 0..=2);
+    (cfg_b(ALL_FL), pre, progs, schedule_strategy(schedlen), any::<bool>())
+        .prop_map(move |(cfg, pre, progs, schedule, spurious)| CaseB { cfg, pre, progs, schedule, mark_preempt: 0, spurious: spurious && tier == Tier::Thorough })
+        .boxed()
+}
+
+pub struct C03;
+impl Prop for C03 {
+    type Case = CaseC03;
+    const ID: &'static str = "C03";
+    const SHRINK_ITERS: u32 = 1200;
+    fn strategy(tier: Tier) -> BoxedStrategy<CaseC03> {
+        prop_oneof![
+            10 => <C03A as Prop>::strategy(tier).prop_map(CaseC03::A),
+            1 => case_b_strategy(tier, ALL_FL, false).prop_map(CaseC03::B),
+            1 => case_b_c03(tier).prop_map(CaseC03::B),
+        ]
+        .boxed()
+    }
+    fn run(case: &CaseC03) -> CaseReport {
+        match case {
+            CaseC03::A(c) => <C03A as Prop>::run(c),
+            CaseC03::B(c) => {
+                let r = run_case_b(c, &OptsB { detect_races: false, owner: "C03" });
+                let mut classes: BTreeSet<&'static str> = r.classes.clone();
+                classes.insert("threaded-case");
+                if r.cas_failures > 0 {
+                    classes.insert("cas-failure");
+                }
+                crate::runner::bump("scheduled_steps", r.steps);
+                CaseReport { nontrivial: !r.inconclusive && r.cas_failures >= 1, classes, viol: r.viol }
+            }
+        }
+    }
+    fn cases(tier: Tier) -> u64 {
+        scale(tier, 320_000, 10_000_000)
+    }
+    fn rule() -> &'static str {
+        "5/6 of the cases: Engine A histories biased to typed/aligned allocations over a 38-type table (align 1..16, size 0..64, ZSTs, drop types) at every cursor residue; at each successful call: capacity law, offset alignment, address alignment when align <= maximum_alignment, zero-size requests succeed without consuming space. 1/6 of the cases: Engine B programs (2-4 threads on one sync::Arena under a generated schedule; half of them from the C02 generator with an exhausted cursor, half with fresh space left and mostly aligned / typed requests) with the same capacity and offset-alignment law at every allocation return, so that a compare-exchange retry after another thread moved the cursor is covered. Non-trivial (A) = a typed/aligned allocation served from a recycled segment, or at a cursor not aligned for T, or a zero-size request on a full arena; (B) = a compare-exchange failed (the threads interfered)"
+    }
+    fn assumptions() -> Vec<&'static str> {
+        let mut v = <C03A as Prop>::assumptions();
+        v.extend(B_ASSUME.iter().copied());
+        v
+    }
+    fn simplify(c: &CaseC03) -> Vec<CaseC03> {
+        match c {
+            CaseC03::A(c) => simplify_case_a(c).into_iter().map(CaseC03::A).collect(),
+            CaseC03::B(c) => simplify_b(c).into_iter().map(CaseC03::B).collect(),
         }
     }
 }
